@@ -22,13 +22,13 @@ CHECKS = {
    text="A second writer is injected value-conditionally; any write that proceeds while another task is the recorded writer is a violation, as is an overlap abort after the write function ran, two write edges in the dump, or a value returned where the reference interpreter finds an overlap. Well-formed programs with writers re-executed in every mode must never be reported."),
  "C07": dict(cat="exploration", ref="5 (C07)", tech="fault injection of back requires (cycles of length 1..n, value-conditional) + runtime monitors on the task-side execution stack, step bound, second oracle from the from-scratch interpreter; rank invariant through the store dump",
    text="Requires of earlier or the same task are injected; a task entered while on the execution stack, a require returning a value for a task on the stack, exceeding the step bound, or a returned value where the reference interpreter closes a cycle are violations; the store's topological ranks are checked at every quiescent point."),
- "C19": dict(cat="fault_enumeration", ref="5 (C19)", tech="crash-point enumeration (panic at every task operation k of a session) and injected diagnosed violations/user panics, each followed by further sessions on the same instance under all monitors; panic classification",
+ "C19": dict(cat="fault_enumeration", ref="5 (C19)", tech="crash-point enumeration (panic at every task operation k of a session) and injected diagnosed violations/user panics, each followed by further sessions on the same instance under all monitors; panic classification; Miri shard in thorough",
    text="For each chosen session every task operation k is made to panic in turn; after the caught abort the rest of the history must return from-scratch results (static-role programs: no abort at all). Injected violations and task panics are followed by sessions with the cause kept or removed. Any panic that is not a diagnosis or the injected one (BUG..., unwrap/index panics inside /repo) is a violation."),
- "C01": dict(cat="exploration", ref="5 (C01)", tech="runtime monitor: differential check of every Session::require result and of resource contents against a from-scratch reference interpreter, over generated programs x states x top-down histories",
+ "C01": dict(cat="exploration", ref="5 (C01)", tech="runtime monitor: differential check of every Session::require result and of resource contents against a from-scratch reference interpreter, over generated programs x states x top-down histories (random, exhaustive small-scope, file-backed slice); Miri shard in thorough",
    text="Thousands (thorough: hundreds of thousands) of generated task programs with value-dependent structure are driven through histories of top-down sessions and external changes on one real Pie instance; each returned output and the resource contents after each session are compared with a from-scratch interpreter that shares no code with pie (thorough: also with a fresh Pie). Held on the executions listed in the evidence."),
  "C02": dict(cat="exploration", ref="5 (C02)", tech="runtime monitors over the checker-side and task-side event log: at-most-once, justification of every execution by an inconsistent verdict, per-owner validation order = declaration order, idempotence probe session, subset-of-from-scratch for exact checkers",
    text="Every execution in every top-down session must be justified by a verdict of the task's own instrumented checker; the per-owner order of checker calls is compared with the order the task created its dependencies; each session is repeated and must execute nothing; with exact checkers the executed set must be a subset of what the reference interpreter executes."),
- "C03": dict(cat="exploration", ref="5 (C03), 6 (K1)", tech="runtime monitor: after every bottom-up build a probe session requires every known task (no execution, outputs = reference interpreter); K1 classifier for mixed histories",
+ "C03": dict(cat="exploration", ref="5 (C03), 6 (K1)", tech="runtime monitor: after every bottom-up build a probe session requires every known task (no execution, outputs = reference interpreter); K1 classifier for mixed histories; Miri shard in thorough",
    text="After each bottom-up build that was told about every pending change, a probe requires all known tasks: nothing may execute and all outputs/resources must equal the from-scratch reference. Pure histories have no suppression; in mixed histories only executions explained by the recorded finding K1 are tolerated (and counted)."),
  "C04": dict(cat="exploration", ref="5 (C04)", tech="runtime monitor over bottom-up builds: once, justified by a checker verdict, queue order vs transitive requires in the shadow, scheduled => executed; cross-checked with Tracker::schedule_task",
    text="Each bottom-up build's event window is checked for multiplicity, justification (new task or inconsistent verdict earlier in the build), dependency order of scheduled tasks at every execution start, and completion of the queue, over queues of up to ~10 tasks including require-of-scheduled-task during execution and early cut-off."),
